@@ -57,3 +57,9 @@ fn event_readers_answer_only_while_reacting()
     kani::cover!(reacting && points_at_data && kind == 0, "reacting to a broadcast");
     std::mem::forget(world);
 }
+
+/// introspection of the tracker for harnesses of sibling modules
+pub fn evt_prepared_len(t: &EventAccessTracker) -> usize { t.prepared.len() }
+pub fn evt_prepared_at(t: &EventAccessTracker, i: usize) -> (SystemCommand, Entity) { t.prepared[i] }
+pub fn evt_reacting(t: &EventAccessTracker) -> bool { t.currently_reacting }
+pub fn evt_data_entity(t: &EventAccessTracker) -> Entity { t.data_entity }
